@@ -109,6 +109,61 @@ Definition json_str_dec (lit : str) : option str :=
 Definition read_string (z : str) : option (str * str) :=
   match z with 34 :: b => dec_body b | _ => None end.
 
+(* ---- one flat JSON object whose values are strings (an item of script / stylesheet / meta, the
+        source dictionary): json.dumps with the default separators, and the scanner of
+        json.decoder.JSONObject restricted to exactly those separators ------------------------ *)
+Fixpoint enc_members (l : list (str * str)) : str :=
+  match l with
+  | [] => []
+  | (k, v) :: l' =>
+    json_str_enc k ++ [58; 32] ++ json_str_enc v ++
+    match l' with [] => [] | _ :: _ => [44; 32] ++ enc_members l' end
+  end.
+Definition enc_flat_obj (l : list (str * str)) : str := 123 :: enc_members l ++ [125].
+
+Definition strip2 (a b : N) (z : str) : option str :=
+  match z with
+  | x :: y :: z' => if (x =? a) && (y =? b) then Some z' else None
+  | _ => None
+  end.
+
+(* at the opening quote of a key *)
+Fixpoint dec_members (fuel : nat) (z : str) : option (list (str * str) * str) :=
+  match fuel with
+  | O => None
+  | S f =>
+    match read_string z with
+    | None => None
+    | Some (k, z1) =>
+      match strip2 58 32 z1 with
+      | None => None
+      | Some z2 =>
+        match read_string z2 with
+        | None => None
+        | Some (v, z3) =>
+          match z3 with
+          | 125 :: z4 => Some ([(k, v)], z4)
+          | 44 :: 32 :: z4 =>
+            match dec_members f z4 with
+            | Some (l, z5) => Some ((k, v) :: l, z5)
+            | None => None
+            end
+          | _ => None
+          end
+        end
+      end
+    end
+  end.
+
+(* the members in order (a Python dict keeps the last of equal keys; json.dumps of a dict never
+   writes equal keys) and the text after the closing brace *)
+Definition dec_flat_obj (z : str) : option (list (str * str) * str) :=
+  match z with
+  | 123 :: 125 :: z' => Some ([], z')
+  | 123 :: z' => dec_members (length z') z'
+  | _ => None
+  end.
+
 (* ---- regex OPENER, lazy any-character group, CLOSER : re.findall + re.sub with the empty string --- *)
 (* first occurrence of needle: text before it, text after it *)
 Fixpoint split_first (needle s : str) : option (str * str) :=
